@@ -33,6 +33,7 @@ def reference(history: List[Tuple[int, int, int, bytes]], shb: int):
     out = []
     for apid, flag, count, data in history:
         pkt = _hdr(apid, flag, count, data)
+        apid = _ap(apid)
         if flag == U:
             out.append(([pkt], False))
         elif flag == F:
@@ -54,9 +55,18 @@ def reference(history: List[Tuple[int, int, int, bytes]], shb: int):
     return out
 
 
+def _ap(a) -> int:
+    """An APID, or (APID, {other header bits}) for packets of one APID that differ in version / type / secondary-header flag."""
+    return a[0] if isinstance(a, tuple) else a
+
+
+def _hx(a) -> dict:
+    return dict(a[1]) if isinstance(a, tuple) else {}
+
+
 def _hdr(apid, flag, count, data):
     from ..models import ccsds_bytes
-    return ccsds_bytes(data, apid=apid, flags=flag, count=count)
+    return ccsds_bytes(data, apid=_ap(apid), flags=flag, count=count, **_hx(apid))
 
 
 # ------------------------------------------------------------------------------------------- histories
@@ -115,6 +125,13 @@ def designed_histories():
         hs.append((f"apid {Z}: F L with gap", H([(Z, F, 1), (Z, L, 3), (Z, C, 4)])))
         hs.append((f"apid {Z}: orphan C, orphan L, unsegmented", H([(Z, C, 1), (Z, L, 2), (Z, U, 3)])))
         hs.append((f"apid {Z} interleaved with apid {A}", H([(Z, F, 1), (A, F, 10), (Z, C, 2), (A, L, 11), (Z, L, 3)])))
+    # a group is identified by its APID alone: members may differ in version, type and secondary-header flag
+    # (e.g. only the FIRST segment carries a secondary header)
+    S1, T1, V1 = (A, (("shf", 1),)), (A, (("type", 1),)), (A, (("version", 1),))
+    hs.append(("secondary header flag only on FIRST", H([(S1, F, 1), (A, C, 2), (A, L, 3), (A, L, 4)])))
+    hs.append(("type bit differs inside a group", H([(A, F, 1), (T1, C, 2), (T1, L, 3)])))
+    hs.append(("FIRST with another flag supersedes the open group", H([(A, F, 1), (A, C, 2), (S1, F, 3), (A, L, 4), (A, L, 5)])))
+    hs.append(("version differs between groups of one APID", H([(V1, F, 1), (A, L, 2), (A, F, 3), (V1, L, 4)])))
     # later members whose data field is as long as / shorter than / one byte longer than the secondary header
     for n in (1, 2, 3):
         hs.append((f"later members with {n}-byte data fields",
@@ -166,7 +183,7 @@ def run_history(prog, fi, history, shb: int, combine: bool = True):
 
     it = make_interp(prog, {"XtcePacketDefinition.parse_ccsds_packet": parse_stub,
                             "space_packet_parser.packets.ccsds_generator": gen_stub}, max_steps=400000)
-    pkts = [raw_packet(data, apid=a, flags=f, count=c) for a, f, c, data in history]
+    pkts = [raw_packet(data, apid=_ap(a), flags=f, count=c, **_hx(a)) for a, f, c, data in history]
 
     # the framer stub hands out packets one at a time so that per-step outputs can be told apart
     steps = []
@@ -194,7 +211,7 @@ def run_history(prog, fi, history, shb: int, combine: bool = True):
     for n in range(1, len(pkts) + 1):
         cur["parsed"], cur["warn"] = [], 0
         it.steps = 0
-        pk = [raw_packet(data, apid=a, flags=f, count=c) for a, f, c, data in history[:n]]
+        pk = [raw_packet(data, apid=_ap(a), flags=f, count=c, **_hx(a)) for a, f, c, data in history[:n]]
         it.call(fi, [selfv, pk], {"combine_segmented_packets": combine, "secondary_header_bytes": shb})
         newp = cur["parsed"][len(prev_parsed):]
         if cur["parsed"][:len(prev_parsed)] != prev_parsed:
@@ -360,7 +377,7 @@ def _enclosing_stmt(fi, node):
 
 
 def _show(h):
-    return " ".join(f"{NAMES[f]}@{a}#{c}" for a, f, c, _ in h)
+    return " ".join(f"{NAMES[f]}@{_ap(a)}{'+' + ','.join(f'{k}={v}' for k, v in _hx(a).items()) if _hx(a) else ''}#{c}" for a, f, c, _ in h)
 
 
 def sweep(ctx: Ctx) -> None:
